@@ -540,7 +540,8 @@ def decide(ctx: Ctx, cases: list[dict]):
                 texts[key]["first_emb"] = en
             owners[key].append(en)
     verdicts = tlc.validate_traces(ctx, "FpefTrace", "FpefTrace", list(traces.values()), chunk=3000)
-    for key, v in verdicts.items():
+    for key in sorted(verdicts):        # TLC reports in scheduling order; report in a fixed one
+        v = verdicts[key]
         t = traces[key]
         ctx.count(key, nontrivial=nontrivial_doc(t["doc"]), n=0)
         feats = doc_features(t["doc"])
@@ -566,13 +567,15 @@ def decide(ctx: Ctx, cases: list[dict]):
                           {**feats, "event": ev["op"], "embedding": owners[key][0], "pattern": pattern})
         for (l, what) in v["drift"]:
             ctx.model_drift(f"{t['events'][l - 1]['op']}: {what}")
-    for t in list(traces.values())[:3]:
+    for t in [traces[k] for k in sorted(traces)[:3]]:
         ctx.sample({"trace": {k: t[k] for k in ("doc", "events")}, "embeddings": owners[t["id"]]})
     return traces
 
 
 def generated_docs(ctx: Ctx, cfg: str) -> list[dict]:
-    return [fix_json(r) for r in tlc.generate(ctx, "Fpef", cfg)]
+    """the documents TLC prints, in a canonical order (TLC's workers print in scheduling order; everything that
+    depends on a document's index -- sampling, embedding rotation -- must not)"""
+    return sorted((fix_json(r) for r in tlc.generate(ctx, "Fpef", cfg)), key=canon)
 
 
 def run(ctx: Ctx) -> int:
